@@ -29,6 +29,8 @@ class LazyRef:
             return progs.f_frag
         if op == 'filter':
             return functools.partial(progs.f_pred, node['m'], node['r'])
+        if op == 'nonemap':
+            return functools.partial(progs.f_none, node['m'], node['r'])
         raise ValueError(op)
 
     # ----------------------------------------------------------------------------------------------- iteration
@@ -46,7 +48,7 @@ class LazyRef:
                 self.log.append((path, 'read', v))
                 yield (k, v) if with_key else v
             return
-        if op in ('map', 'frag', 'parmap'):
+        if op in ('map', 'frag', 'parmap', 'nonemap'):
             f = self.fn_of(node)
             (c, cp), = self.kids(node, path)
             for x in self.iter(c, cp, with_key):
@@ -160,7 +162,7 @@ class LazyRef:
             _, vals = progs.src_values(node)
             self.log.append((path, 'read', vals[i]))
             return vals[i]
-        if op in ('map', 'frag', 'parmap'):
+        if op in ('map', 'frag', 'parmap', 'nonemap'):
             (c, cp), = self.kids(node, path)
             return self.call(path, self.fn_of(node), self.get(c, cp, i))
         if op == 'batch_map':
@@ -226,7 +228,7 @@ class LazyRef:
             v = vals[keys.index(k)]
             self.log.append((path, 'read', v))
             return v
-        if op in ('map', 'frag', 'parmap'):
+        if op in ('map', 'frag', 'parmap', 'nonemap'):
             (c, cp), = self.kids(node, path)
             return self.call(path, self.fn_of(node), self.getkey(c, cp, k))
         if op == 'batch_map':
